@@ -857,6 +857,53 @@ pub fn run() {
         );
       }
     }
+    // times built from their components, time(hour, minute, second, offset): the value denotes what the components say and
+    // its text reads back; a component out of range - an offset of 15 hours and more, whatever its number of days - gives null
+    {
+      let offsets: Vec<(&str, Option<i64>)> = vec![
+        ("null", None), ("duration(\"PT0S\")", Some(0)), ("duration(\"PT1H\")", Some(3600)), ("duration(\"-PT1H\")", Some(-3600)), ("duration(\"PT30M\")", Some(1800)), ("duration(\"-PT0H30M\")", Some(-1800)),
+        ("duration(\"PT14H\")", Some(14 * 3600)), ("duration(\"-PT14H\")", Some(-14 * 3600)), ("duration(\"PT14H59M\")", Some(14 * 3600 + 59 * 60)), ("duration(\"PT1H2M3S\")", Some(3723)), ("duration(\"PT15H\")", Some(15 * 3600)),
+        ("duration(\"-PT15H\")", Some(-15 * 3600)), ("duration(\"PT23H59M\")", Some(23 * 3600 + 59 * 60)), ("duration(\"P1D\")", Some(86400)), ("duration(\"-P1D\")", Some(-86400)), ("duration(\"P1DT2H\")", Some(26 * 3600)), ("duration(\"-P1DT14H\")", Some(-38 * 3600)),
+        ("duration(\"P30D\")", Some(30 * 86400)), ("duration(\"P10000D\")", Some(10000 * 86400)), ("(date and time(\"2021-01-02T12:00:00Z\") - date and time(\"2021-01-01T10:00:00Z\"))", Some(26 * 3600)),
+      ];
+      let mut n_built = 0u64;
+      for (h, m, s) in [(0u32, 0u32, 0u32), (10, 30, 0), (23, 59, 59), (24, 0, 0), (10, 60, 0), (10, 30, 60)] {
+        for (otext, osecs) in &offsets {
+          n_built += 1;
+          cnt.literals.fetch_add(1, Ordering::Relaxed);
+          cnt.observations.fetch_add(1, Ordering::Relaxed);
+          let text = format!("time({}, {}, {}, {})", h, m, s, otext);
+          let v = eval_with(&scope, &text);
+          let valid = h < 24 && m < 60 && s < 60 && osecs.map(|o| o.abs() < 15 * 3600).unwrap_or(true);
+          if !valid {
+            if !matches!(v, Value::Null(_)) {
+              run.violation(
+                &format!("built-time:accepted-invalid:{}", if h >= 24 || m >= 60 || s >= 60 { "time-of-day-out-of-range" } else if osecs.map(|o| o.abs() >= 86400).unwrap_or(false) { "offset-of-a-day-or-more" } else { "offset-of-15-hours-or-more" }),
+                &format!("`{}` evaluates to {} but a component is out of range", text, v),
+                json!({"engine":"c14","text":text,"expected":"null"}),
+              );
+            }
+            continue;
+          }
+          let zone = match osecs {
+            None => RZone::Local,
+            Some(0) => RZone::Utc,
+            Some(o) => RZone::Offset(*o),
+          };
+          let want = print_time(&RTime { hour: h, minute: m, second: s, nanos: 0, zone });
+          let printed = v.to_string();
+          let back = eval_with(&scope, &format!("time(\"{}\")", printed));
+          if printed != want || back.to_string() != printed {
+            run.violation(
+              "built-time:wrong-text-or-read-back",
+              &format!("`{}` evaluates to {} (expected {}), which reads back as {}", text, printed, want, back),
+              json!({"engine":"c14","text":format!("string({})", text),"expected":format!("\"{}\"", want)}),
+            );
+          }
+        }
+      }
+      run.set("times_built_from_components", json!(n_built));
+    }
     run.set("oversized_duration_components", json!(n_big));
   }
   run.sample(json!({"kind":"time","literal":"08:15:00-00:30","canonical":"08:15:00-00:30","checks":["accepted through function, @-literal, TryFrom, xsd input","prints canonically","components","string(v) reads back equal"]}));
